@@ -293,6 +293,7 @@ def cases(tier):
     out = [
         Case("roundtrip-se2", _roundtrip(SE2_FILE, False), timeout=20, old_timeout=30, validate=v, feas_timeout_ms=1500, val_tol=1e-9),
         Case("roundtrip-se3", _roundtrip(SE3_FILE, False), timeout=20, old_timeout=30, validate=v, feas_timeout_ms=1500, val_tol=1e-9, shards=4),
+        Case("roundtrip-se3-isolated-vertices", _roundtrip(SE3_FILE + ["VERTEX_XY", "VERTEX_SE2:a2"], False), timeout=20, old_timeout=30, validate=v, feas_timeout_ms=1500, val_tol=1e-9, shards=4),
         Case("roundtrip-se3-custom", _roundtrip(SE3_FILE, True), timeout=20, old_timeout=30, validate=v, feas_timeout_ms=1500, val_tol=1e-9, shards=4),
         Case("roundtrip-se3-rawparam", _roundtrip(SE3_FILE, False, raw_param=True), timeout=20, old_timeout=30, validate=v, feas_timeout_ms=1500, val_tol=1e-9, shards=4),
         Case("extreme-magnitudes-se2", _extreme(SE2_FILE), timeout=20, old_timeout=30, validate=4, feas_timeout_ms=1500, val_tol=1e-9, shadow=False),
